@@ -17,6 +17,25 @@ Theorem C09_copy_any_buffer_size : forall m src, (0 < m)%nat ->
 Proof. exact copy_any_buffer_size. Qed.
 Print Assumptions C09_copy_any_buffer_size.
 
+(* The same for sources whose reads return bytes together with an error (n > 0, err != nil;
+   io.EOF or another error): the chunk is written first, then the error ends the loop, so all
+   bytes read are written.  [src_read_st] is the read step (chunk, rest, status). *)
+Theorem C09_copy_preserves_stream_st : forall fin (src : list str), copy_buffer_st fin src = Ok (concat src).
+Proof. exact copy_preserves_stream_st. Qed.
+Print Assumptions C09_copy_preserves_stream_st.
+
+Theorem C09_copy_final_read_carries_data :
+  src_read_st 1 8 [[1; 2]%N; [3]%N] = ([1; 2]%N, [[]; [3]%N], 0%N) /\
+  src_read_st 1 8 [[]; [3]%N] = ([3]%N, [[]], 1%N) /\
+  copy_buffer_st 1 [[1; 2]%N; [3]%N] = Ok [1; 2; 3]%N /\ copy_buffer_st 9 [[1; 2]%N; [3]%N] = Ok [1; 2; 3]%N.
+Proof. exact copy_st_final_read_carries_data. Qed.
+Print Assumptions C09_copy_final_read_carries_data.
+
+Theorem C09_upstream_stream_f_eq : forall k pp line segs fin,
+  upstream_stream_f k pp line segs fin = upstream_stream k pp line segs.
+Proof. exact upstream_stream_f_eq. Qed.
+Print Assumptions C09_upstream_stream_f_eq.
+
 (* PROXY protocol v1 line: shape, and fields without a space can be read back. *)
 Theorem C09_proxy_line_format : forall is4 ca sa cp sp,
   proxy_line is4 ca sa cp sp =
@@ -66,11 +85,34 @@ Print Assumptions C09_copy_from_reader_preserves.
    for every segmentation, whenever the handshake routes the connection, the upstream receives
    [PROXY line] ++ the client's stream from its very first byte, including anything sent
    together with the ClientHello. *)
-Theorem C09_sni_upstream_stream : forall (pp : bool) (line : str) segs up,
+Theorem C09_sni_upstream_stream_when_routed : forall (pp : bool) (line : str) segs up,
   upstream_stream KSni pp line segs = Ok (Some up) ->
   up = spec_upstream KSni pp line (concat segs).
 Proof. exact sni_upstream_stream. Qed.
+Print Assumptions C09_sni_upstream_stream_when_routed.
+
+(* Unconditionally: for every segmentation of a stream that starts with a record the handshake
+   accepts (C10's sni_route_name on the whole stream, non-empty server name), the upstream
+   receives [PROXY line] ++ the whole client stream.  Peek / ReadFull / the reader-copy loop
+   are proved to terminate within the fuel the model supplies. *)
+Theorem C09_sni_upstream_stream : forall (pp : bool) (line : str) segs n name,
+  sni_route_name (concat segs) = Ok (n, name) -> name <> [] ->
+  upstream_stream KSni pp line segs = Ok (Some (spec_upstream KSni pp line (concat segs))).
+Proof. exact sni_upstream_stream_total. Qed.
 Print Assumptions C09_sni_upstream_stream.
+
+(* Err 77 (fuel exhausted) is unreachable, for every scripted source. *)
+Theorem C09_peek_never_out_of_fuel : forall b n, peek b n <> Err 77%N.
+Proof. exact peek_never_out_of_fuel. Qed.
+Print Assumptions C09_peek_never_out_of_fuel.
+
+Theorem C09_read_full_never_out_of_fuel : forall b n, read_full b n <> Err 77%N.
+Proof. exact read_full_never_out_of_fuel. Qed.
+Print Assumptions C09_read_full_never_out_of_fuel.
+
+Theorem C09_upstream_stream_never_out_of_fuel : forall k pp line segs, upstream_stream k pp line segs <> Err 77%N.
+Proof. exact upstream_stream_never_out_of_fuel. Qed.
+Print Assumptions C09_upstream_stream_never_out_of_fuel.
 
 Theorem C09_sni_upstream_nonvacuous :
   upstream_stream KSni false [] [wit_hello ++ [1; 2; 3]%N; [9%N]] = Ok (Some (wit_hello ++ [1; 2; 3; 9]%N)) /\
@@ -99,6 +141,28 @@ Theorem C09_sni_leftover_refuted :
 Proof. exact sni_leftover_refuted. Qed.
 Print Assumptions C09_sni_leftover_refuted.
 
+(* When the old code was right: with a segment boundary exactly at the end of the ClientHello
+   record nothing is buffered beyond it, and the unrepaired copier delivered the whole stream. *)
+Theorem C09_sni_boundary_nothing_buffered : forall line s1 s2 n name,
+  sni_route_name (concat (s1 ++ s2)) = Ok (n, name) -> name <> [] ->
+  length (concat s1) = N.to_nat n ->
+  sni_leftover_unrepaired line (s1 ++ s2) = [].
+Proof. exact sni_boundary_nothing_buffered. Qed.
+Print Assumptions C09_sni_boundary_nothing_buffered.
+
+Theorem C09_sni_unrepaired_right_on_boundary : forall (pp : bool) (line : str) s1 s2 n name,
+  sni_route_name (concat (s1 ++ s2)) = Ok (n, name) -> name <> [] ->
+  length (concat s1) = N.to_nat n ->
+  upstream_stream_sni_unrepaired pp line (s1 ++ s2) = Ok (Some (spec_upstream KSni pp line (concat (s1 ++ s2)))).
+Proof. exact sni_unrepaired_right_on_boundary. Qed.
+Print Assumptions C09_sni_unrepaired_right_on_boundary.
+
+Theorem C09_sni_boundary_nonvacuous :
+  sni_route_name (concat ([firstn 20 wit_hello; skipn 20 wit_hello] ++ [[1; 2; 3]%N])) = Ok (nlen wit_hello, bs "foo.com"%string) /\
+  length (concat [firstn 20 wit_hello; skipn 20 wit_hello]) = N.to_nat (nlen wit_hello).
+Proof. exact sni_boundary_nonvacuous. Qed.
+Print Assumptions C09_sni_boundary_nonvacuous.
+
 (* The first finished direction ends the tunnel.  For every schedule of the two copiers:
    each side has received a prefix of what the other sent (once, in order, unmodified) ... *)
 Theorem C09_tunnel_delivers_prefixes : forall sched c ceof u ueof,
@@ -126,7 +190,7 @@ Print Assumptions C09_half_close_reply_refuted.
 
 Theorem C09_half_close_scenario_refuted :
   exists e, region_half_close false CHalf = true /\
-    scenario_expect KTcp false [] [[1; 2; 3]%N] false CHalf UOnEOF [7; 8]%N 0 0 UClose = Ok e /\
+    scenario_expect KTcp false [] [[1; 2; 3]%N] 0 false CHalf UOnEOF [7; 8]%N 0 0 UClose = Ok e /\
     e_up e = [1; 2; 3]%N /\ e_up_lo e = 3%N /\ e_cl_hi e = 0%N /\
     spec_b KTcp false [] [1; 2; 3]%N false CHalf UOnEOF [7; 8]%N UClose [1; 2; 3]%N [] = false.
 Proof. exact half_close_scenario_refuted. Qed.
@@ -148,8 +212,42 @@ Print Assumptions C09_ws_upgrade_on_domain.
 
 Theorem C09_ws_split_101_refuted :
   exists e, has_prefix wit_reply ws_101 = true /\ region_ws_split KWs wit_reply 10 = true /\
-    scenario_expect KWs false [] [[1; 2]%N] false CStay UAtConnect wit_reply 10 (nlen' wit_reply) UStay = Ok e /\
+    scenario_expect KWs false [] [[1; 2]%N] 0 false CStay UAtConnect wit_reply 10 (nlen' wit_reply) UStay = Ok e /\
     e_cl e = firstn 10 wit_reply /\ e_cl_hi e = 10%N /\ e_up e = [] /\
     spec_b KWs false [] [1; 2]%N false CStay UAtConnect wit_reply UStay (e_up e) (e_cl e) = false.
 Proof. exact ws_split_101_refuted. Qed.
 Print Assumptions C09_ws_split_101_refuted.
+
+(* The link between the scenario analysis and the specification, with the interval semantics of
+   the correspondence check: for all scenarios, outside the open finding regions (F-C09-2/3/4) and
+   the close-with-unread-reply race (kernel-decided, not generated), every observation within
+   the model's forced outcome satisfies spec_b.  Verdict 4 cannot arise from the model side. *)
+Theorem C09_tunnel_expect_meets_spec : forall up reply cwait ce ut ue o_up o_cl,
+  let e := tunnel_expect up reply cwait ce ut ue in
+  region_half_close cwait ce = false -> race_close_unread_reply up cwait ce ut = false ->
+  within o_up (e_up e) (e_up_lo e) (nlen' (e_up e)) = true ->
+  is_prefix o_cl (e_cl e) = true -> (e_cl_lo e <= nlen' o_cl)%N ->
+  spec_core up reply cwait ce ut ue o_up o_cl = true.
+Proof. exact tunnel_expect_meets_spec. Qed.
+Print Assumptions C09_tunnel_expect_meets_spec.
+
+Theorem C09_scenario_meets_spec : forall k pp line segs fin cwait ce ut reply rseg1 whead ue e o_up o_cl,
+  scenario_expect k pp line segs fin cwait ce ut reply rseg1 whead ue = Ok e ->
+  region_dyn_proxyproto k pp = false -> region_ws_split k reply rseg1 = false ->
+  region_half_close cwait ce = false ->
+  race_close_unread_reply (spec_upstream k pp line (concat segs)) cwait ce ut = false ->
+  ws_head_first k ut whead = true ->
+  within o_up (e_up e) (e_up_lo e) (nlen' (e_up e)) = true ->
+  within o_cl (e_cl e) (e_cl_lo e) (e_cl_hi e) = true ->
+  spec_b k pp line (concat segs) cwait ce ut reply ue o_up o_cl = true.
+Proof. exact scenario_meets_spec. Qed.
+Print Assumptions C09_scenario_meets_spec.
+
+Theorem C09_scenario_meets_spec_nonvacuous :
+  exists e, scenario_expect KSni true [80; 32]%N [wit_hello ++ [1; 2]%N; [3]%N] 1 true CHalf (UAfterBytes 4) [7; 8]%N 0 0 UStay = Ok e /\
+    within ([80; 32]%N ++ wit_hello ++ [1; 2; 3]%N) (e_up e) (e_up_lo e) (nlen' (e_up e)) = true /\
+    within [7; 8]%N (e_cl e) (e_cl_lo e) (e_cl_hi e) = true /\
+    region_half_close true CHalf = false /\
+    race_close_unread_reply (spec_upstream KSni true [80; 32]%N (wit_hello ++ [1; 2; 3]%N)) true CHalf (UAfterBytes 4) = false.
+Proof. exact scenario_meets_spec_nonvacuous. Qed.
+Print Assumptions C09_scenario_meets_spec_nonvacuous.
